@@ -45,6 +45,9 @@ CLAIMED['C13'] = ('ir2c+irsym', 'bounded model checking (CBMC) of the clang IR o
 CLAIMED['C17'] = ('ir2c+irsym', 'bounded model checking (CBMC: kissat/cadical/minisat/z3) of the clang IR of ImathFun/ImathMath/ImathRoots/ImathColorAlgo translated to C; engine C (exact reals) for root and lerpfactor identities',
     'floor/ceil/trunc for EVERY float below 2^31; finitef/finited and succ/pred dispatch for all bit patterns; abs/sign/cmp/cmpt/iszero/equal/clamp/equalWith*Error on int and float against their definitions; lerp/ulerp formulas; divs/mods/divp/modp with overflow assertions for |x|,|y| <= 2^8 (2^12 thorough); packed-colour round trip for all 2^32 colours; Vec3 vs Color4 hsv/rgb copies incl. alpha; solver delegation; solveLinear/solveQuadratic root counts and roots, lerp(lerpfactor) identity over the reals.',
     'Trusted: clang-14, vf/ll2c.py, vf/irsym.py (validated each run), CBMC, z3. Structural obligations treat + - * / sqrt as uninterpreted (commutativity of + and * built in). nextafter is glibc (uninterpreted). Full 32-bit div/mod, cubic solver, hsv round trip and root accuracy are outside.', '3/C17')
+CLAIMED['C08'] = ('ir2c+irsym', 'CBMC on the clang IR translated to C (IEEE floats bit-blasted with a correctly rounded sqrtf; uninterpreted FP operations for the structural skeleton) and engine C (exact reals) on the real body of length()',
+    'length()==0 exactly for the zero vector and finite/non-negative otherwise for all finite components up to 2^62 (squares that underflow included) on real IEEE semantics; length2()==dot bit for bit; every member of the normalize family divides each component by one shared length() (division, not reciprocal), with the documented zero-vector behaviour and domain_error; over the reals, on EVERY path of the real body (sqrt branch and the lengthTiny scaling branch) length() is the non-negative l with l^2 == sum of squares, and the normalised vector is v/|v| with unit length.',
+    'Trusted: clang-14, vf/ll2c.py, vf/irsym.py (validated each run), CBMC sqrtf model, z3. "Within a few ulps" and the direct IEEE no-NaN/inf proof of normalize are outside (stated lemma in DESIGN).', '3/C08')
 NOT_YET = 'check not built yet in this working session (planned in DESIGN.md section 3); no claim is made'
 NA = {}
 
